@@ -13,5 +13,5 @@ if "$D/demo.sh" "$WT" >/tmp/wt/demo_base.log 2>&1; then echo "CONFIRM: demo pass
 git apply "$D/patch.diff"
 if cargo build --offline -q 2>/tmp/wt/build.log; then echo "CONFIRM: builds with patch: ok"; else echo "CONFIRM: build FAILED with patch"; tail -20 /tmp/wt/build.log; git checkout -q -- .; exit 1; fi
 if "$D/demo.sh" "$WT" >/tmp/wt/demo_mut.log 2>&1; then echo "CONFIRM: demo PASSES with patch (mutant not demonstrated)"; else echo "CONFIRM: demo fails with patch: ok"; tail -4 /tmp/wt/demo_mut.log; fi
-/tmp/wt/run_tests.sh "$WT" | head -20
+/verif/tools/run_pinned_suite.sh "$WT" | head -20
 git checkout -q -- . ; git clean -qfd -e target
